@@ -39,6 +39,11 @@ def scenarios(tier):
     # a key that was Updated when a reclaiming snapshot moved every record (a tombstone dropped before it) is updated again:
     # the in-place write must go to the record's NEW position
     S.append(("in-place-after-reclaim-moved-the-record", base + ["C 1 remove a", "C 1 snapshot false", "SNAP", "C 1 set c c2", "C 1 snapshot true", "SNAP", "C 1 set c c3", "C 1 set bb b3"], False))
+    # entries written by the conflict code of an arbiter database (a key parked at the in-conflict version, the conflict's registry key)
+    # go through the snapshot writer like any other: a NEW key must be appended, never written in place
+    arb = ["C 1 create-db ta tk arbiter", "C 1 use-db ta tk", "SESS 3", "C 3 use-db ta tk", "C 3 arbiter", "C 1 set a 1", "C 1 set bb 22", "C 1 snapshot false", "SNAP"]
+    S.append(("arbiter-conflict-on-new-key", arb + ["C 1 set-safe nw 0 x", "C 1 set-safe nw 0 y"], False))
+    S.append(("arbiter-conflict-on-persisted-key", arb + ["C 1 set-safe a 0 stale"], False))
     if tier != "quick":
         S.append(("many-new-keys", base + [f"C 1 set n{i} value-{i}" for i in range(12)], False))
         S.append(("many-updates", base + ["C 1 set a u1", "C 1 set bb u2", "C 1 set c u3", "C 1 remove a"], False))
@@ -117,6 +122,16 @@ def resolve_creates(ops, predir):
             out.append((k, f, off, d))
     return out
 
+def mask_plan(lines):
+    """operation ids inside the written bytes (key names `$conflicts_<key>_<op id>`, conflict notices) are the implementation's on one side
+    and the model's on the other; same length, same order: masked"""
+    out = []
+    for l in lines:
+        p = l.split(" ")
+        if len(p) >= 4 and p[1] in ("append", "pwrite"): p[-1] = core.mask_hex_ids(p[-1])
+        out.append(" ".join(p))
+    return out
+
 def op_text(op):
     k, f, off, d = op
     fe = core.esc(f, sp=True)
@@ -141,9 +156,15 @@ def apply_ops(predir, ops, dest):
         elif k == "rename": os.replace(p, os.path.join(dest, d.decode()))
         elif k == "unlink": os.remove(p)
 
-def snap_dataset(lines, db="t"):
+def snap_dataset(lines, db=None):
+    """the live data of every user database, keys as `<db>/<key>` (operation ids inside key names masked)"""
     ds = dataset(lines)
-    return ds.get(db)
+    names = sorted(k for k in ds if k != "$admin")
+    if not names: return None
+    keys = {}
+    for nm in names:
+        for k, v in ds[nm][2].items(): keys[f"{nm}/{core.OPID.sub('#id', k)}"] = (core.OPID.sub("#id", v[0]), v[1])
+    return (tuple(ds[nm][0] for nm in names), tuple(ds[nm][1] for nm in names), keys)
 
 def safe_at(pre, post, got):
     """the property: every key persisted before has its old or its new value+version, nothing else appears"""
@@ -240,7 +261,7 @@ def main(tier, seed):
         msteps = core.parse_steps([l for l in mo if l])
         plan = next((rest for (inp, rest, dump) in msteps if inp.startswith("CRASHPLAN")), [])
         mloads = [(rest, dump) for (inp, rest, dump) in msteps if inp.startswith("CRASHLOAD")]
-        res = dict(name=name, reclaim=reclaim, nops=len(ops), ops=[op_text(o)[:160] for o in ops], trace_equal=(plan == [op_text(o) for o in ops]),
+        res = dict(name=name, reclaim=reclaim, nops=len(ops), ops=[op_text(o)[:160] for o in ops], trace_equal=(mask_plan(plan) == mask_plan([op_text(o) for o in ops])),
                    model_plan=[l[:160] for l in plan], prefixes=[])
         for n in range(len(ops) + 1):
             dest = os.path.join(d, f"p{n}")
